@@ -1,6 +1,6 @@
 (* Properties/C03.v — validation accepts exactly the smooth, decomposable, well-labelled circuits. *)
 From Coq Require Import List Arith Bool ZArith Ring.
-From DV Require Import Model.Core Model.Heap Proofs.CoreFacts Proofs.HeapFacts Proofs.HeapTable.
+From DV Require Import Model.Core Model.Heap Proofs.CoreFacts Proofs.HeapFacts Proofs.HeapTable Proofs.BfsFacts.
 Import ListNotations.
 
 (* accept <-> ids are unique and exactly {0..n-1}; every sum has as many weights as children, at
@@ -17,6 +17,12 @@ Theorem C03_smooth_iff : forall h nodes, forallb (smooth_node h) nodes = true <-
 Proof. exact smooth_iff. Qed.
 Theorem C03_decomp_iff : forall h nodes, forallb (decomp_node h) nodes = true <-> decomp_spec h nodes.
 Proof. exact decomp_iff. Qed.
+
+(* the traversal behind collect_nodes visits exactly the objects reachable from the root, each once,
+   on every closed object graph (cycles, sharing): validation looks at the whole reachable circuit *)
+Theorem C03_bfs_complete : forall (h : heap) root, closed h -> root < length h ->
+    NoDup (bfs h root) /\ forall x, In x (bfs h root) <-> reach h root x.
+Proof. exact bfs_complete. Qed.
 
 Theorem C03_context_flag_off : forall h root a b c, check_spn false h root a b c = Accept.
 Proof. exact check_disabled. Qed.
@@ -50,6 +56,7 @@ Print Assumptions C03_iff.
 Print Assumptions C03_labeled_iff.
 Print Assumptions C03_smooth_iff.
 Print Assumptions C03_decomp_iff.
+Print Assumptions C03_bfs_complete.
 Print Assumptions C03_context_flag_off.
 Print Assumptions C03_sound_normalised.
 Print Assumptions C03_pinned_refuted.
